@@ -327,7 +327,7 @@ def main():
             if 'O_CREAT' in flags and not existed:
                 open(p, 'wb').close()
                 mutating = True
-                act = {'frag': 'CreateFragmentFile', 'snap': 'CreateSnapTmp', 'cache': 'CreateCache',
+                act = {'frag': 'CreateFragmentFile', 'snap': 'CreateSnapTmp' if 'O_TRUNC' in flags else 'CreateSnapTmpNoTrunc', 'cache': 'CreateCache',
                        'metatmp': 'CreateMetaTmp', 'keys': 'CreateKeys', 'bolt': 'Bolt'}.get(kind, 'CreateOther')
             elif 'O_TRUNC' in flags and existed and not os.path.isdir(p):
                 if os.path.getsize(p) > 0:
